@@ -7,7 +7,7 @@ jobs=${1:-4}
 : > .cache/regress_results.txt
 for d in seeded/*/; do
   name=$(basename $d); id=${name%%-*}
-  while [ $(jobs -r | wc -l) -ge $jobs ]; do sleep 2; done
+  while [ $(jobs -rp | wc -l) -ge $jobs ]; do sleep 2; done
   (
     out=$(tools/try_seed.sh seeded/$name/patch.diff $id quick 2>&1); rc=$?
     keys=$(echo "$out" | grep -E "^  key=" | sed 's/^  key=\([^ ]*\).*/\1/' | head -3 | tr '\n' ' ')
